@@ -26,7 +26,8 @@ use cw_multi_test::{App, AppBuilder, ContractWrapper, Executor};
 use std::cell::RefCell;
 
 pub const STAKE_DENOM: &str = "ustake";
-pub const OTHER_DENOM: &str = "uother";
+// a different bank denom that differs from the stake denom only by case
+pub const OTHER_DENOM: &str = "USTAKE";
 const START_HEIGHT: u64 = 12345;
 const START_TIME: u64 = 1571797419879305533;
 const TWO64: u128 = 1u128 << 64;
@@ -383,7 +384,8 @@ impl StakeScen {
                 self.app.wrap().query_balance(st.to_string(), STAKE_DENOM).map(|c| c.amount.u128()).unwrap_or(0)
             };
         // C20 self-check of the listing
-        let pagediff = paging_audit("list_members", &|c, l| self.list_members(c, l)).unwrap_or_default();
+        let pool_s: Vec<String> = self.pool.iter().map(|a| a.to_string()).collect();
+        let pagediff = paging_audit_cursors("list_members", &|c, l| self.list_members(c, l), &pool_s).unwrap_or_default();
         format!(
             "obs pagediff={} denom={} stake={} claims={} member={} hist={} members={} total={} admin={} hooks={} rawmember={} rawtotal={} held={} bal={} fheld={}",
             pagediff,
